@@ -221,6 +221,9 @@ IDENTITY_CALLS = {
     # views of the same string / slice / vector contents
     "std::string::String::as_str", "std::ops::Deref::deref", "std::convert::AsRef::as_ref", "std::vec::Vec::<T, A>::as_slice",
     "std::vec::Vec::<T>::as_slice", "std::string::String::as_mut_str", "std::ops::DerefMut::deref_mut",
+    # borrowed views of an Option: the same optional value
+    "std::option::Option::<T>::as_ref", "std::option::Option::<T>::as_mut", "std::option::Option::<T>::as_deref",
+    "std::option::Option::<T>::as_deref_mut",
     # Option<&T> -> Option<T>: the same optional value for a Copy/Clone payload
     "std::option::Option::<&T>::copied", "std::option::Option::<&T>::cloned",
     "std::option::Option::<&mut T>::copied", "std::option::Option::<&mut T>::cloned",
@@ -608,6 +611,17 @@ class SymEval:
             (k, c), = base.t.items()
             if c == 1 and len(k) == 1 and k[0][1] == 1 and k[0][0][0] == "v":
                 return var(k[0][0][1] + "." + name)
+            # a field of `match s {..}` / `o.unwrap_or(d)` / `if c {a} else {b}` is the same selection of that field of the alternatives
+            if c == 1 and len(k) == 1 and k[0][1] == 1 and k[0][0][0] == "f":
+                a = k[0][0]
+                fn = a[1]
+                if fn == "match" and isinstance(a[2], tuple) and len(a[2]) == 2 and a[2][0] == "P":
+                    return build_match(a[2][1], [(key, self.field(unkey(v), name)) for key, v in a[3]])
+                if fn == "std::option::Option::<T>::unwrap_or" and len(a) == 4 and isinstance(a[2], tuple) and a[2][0] == "P":
+                    o = a[2][1]
+                    return build_match(o, [(self.SOME_KEY, self.field(app("payload0", o), name)), (repr("None"), self.field(unkey(a[3]), name))])
+                if fn == "ite" and len(a) == 5:
+                    return mk_ite(unkey(a[2]), self.field(unkey(a[3]), name), self.field(unkey(a[4]), name))
         return app("." + name, base)
 
     # ---- expressions -----------------------------------------------------
@@ -1075,6 +1089,10 @@ class SymEval:
         try:
             if base == "map_or" and len(args) == 3 and fnlike(args[2]):
                 return build_match(r, [(self.OK_KEY, self.apply(args[2], [app("payload0", r)])), (self.ERR_KEY, args[1])])
+            if base == "unwrap_or_else" and len(args) == 2 and fnlike(args[1]):
+                return build_match(r, [(self.OK_KEY, app("payload0", r)), (self.ERR_KEY, self.apply(args[1], [app("payload0", r)]))])
+            if base == "unwrap_or" and len(args) == 2:
+                return build_match(r, [(self.OK_KEY, app("payload0", r)), (self.ERR_KEY, args[1])])
             if base == "map_or_else" and len(args) == 3 and fnlike(args[1]) and fnlike(args[2]):
                 return build_match(r, [(self.OK_KEY, self.apply(args[2], [app("payload0", r)])), (self.ERR_KEY, self.apply(args[1], [app("payload0", r)]))])
         except Unsupported:
@@ -1134,7 +1152,7 @@ class SymEval:
                 return o
             if base == "map" and len(args) == 2 and fnlike(args[1]):
                 return ("opt", src, self.apply(args[1], [val]))
-            if base == "unwrap_or" and len(args) == 2 and is_opt:
+            if base == "unwrap_or" and len(args) == 2:
                 return build_match(src, [(self.SOME_KEY, val), (repr("None"), args[1])])
             if base == "unwrap_or_else" and len(args) == 2 and fnlike(args[1]):
                 return build_match(src, [(self.SOME_KEY, val), (repr("None"), self.apply(args[1], []))])
